@@ -68,11 +68,18 @@ pub fn incremental_sds_plus(
 
     // Seed TagStore with expiry values from D_old ∪ D_new.
     let mut initial_tags = TagStore::new(ExpirationProvenance);
+    // A fact listed more than once (carried over and renewed, or listed by two
+    // components) is supported until its latest expiry.
+    let mut seed_expiry: HashMap<Triple, u64> = HashMap::new();
     for (t, e) in d_old.iter().chain(d_new.iter()) {
-        // set_tag skips u64::MAX (= one()), so static facts are implicitly ∞.
-        if *e < u64::MAX {
-            initial_tags.set_tag(t, *e);
-        }
+        seed_expiry
+            .entry(t.clone())
+            .and_modify(|old| *old = (*old).max(*e))
+            .or_insert(*e);
+    }
+    for (t, e) in &seed_expiry {
+        // set_tag treats u64::MAX (= one()) as "no explicit tag": static facts are implicitly ∞.
+        initial_tags.set_tag(t, *e);
     }
 
     for rule in rules {
